@@ -234,6 +234,13 @@ def np_array(ctx: Ctx, obj, dtype=None, ndmin=0, copy=True, order=None):
         return _ndmin(Arr((), lambda: v, dt), ndmin)
     if isinstance(obj, range):
         obj = list(obj)
+    if type(obj).__name__ == "SymRange" and getattr(obj, "step", 1) == 1:
+        lo, n_ = obj.lo, obj.length()
+        a = Arr((n_,), lambda i, lo=lo: T.add(lo, i), "int")
+        a.is_arange = (lo, T.add(lo, n_))
+        a.sorted_strict = True
+        a.distinct = True
+        return _ndmin(a, ndmin)
     if isinstance(obj, (list, tuple)):
         if len(obj) == 0:
             return _ndmin(Arr((0,), lambda i: 0.0, dtype or "real"), ndmin)
